@@ -56,6 +56,11 @@ def tree_case(rng, tier, algo=None):
         c["params"] = {"nu": 2.0 ** a, "rho": 2.0 ** -b}
         c["n"] = c["T"] = n = min(4 ** cexp, 1024 if tier == "thorough" else 256)
         c["resonant"] = True
+    elif algo == "T_HOO" and rng.random() < 0.1:
+        # small smoothness constants: nu*sqrt(n) <= rho makes the published depth bound negative (the tree is the root
+        # and its children for ever), nu*sqrt(n) slightly above rho gives bounds 0 and 1
+        rho = float(rng.uniform(0.3, 0.95))
+        c["params"] = {"nu": float(rho / n ** 0.5 * 10 ** rng.uniform(-1.5, 0.4)), "rho": rho}
     c["_cost"] = 3e-5 * n * n / 10 + 0.1
     return gen.add_midqueries(rng, gen.add_queries(rng, c, 0.35, dense_prob=0.2), 0.25)
 
